@@ -87,14 +87,27 @@ def table_case(draw):
     """Depth tables realised as reads: per sample a depth (shallow or deep) and, for each of 3 positions, counts of the four
     nucleotides summing to the depth.  Aims at the joint per-individual rule (the SAME individual must meet --ind-maf and --ind-mad)."""
     n_s = draw(st.integers(2, 3))
+    near_tie = draw(st.integers(0, 3)) == 0  # two ALT alleles whose mean frequencies differ by less than the print precision
+    if near_tie:
+        n_s = 2
     n_pos = 3
     seq = "".join(draw(st.lists(st.sampled_from(NUC), min_size=30, max_size=30)))
     start = 10
     bams = []
     for i in range(n_s):
         depth = draw(st.sampled_from([2, 3, 4, 5, 20, 40, 60]))
+        if near_tie:
+            depth = 40 + i  # depths d and d+1
         cols = []
         for p in range(n_pos):
+            if near_tie and p == 0:
+                a = 10
+                ref_b = seq[start]
+                others = [x for x in NUC if x != ref_b]
+                c1, c2 = (a + 1 - i, a + i)  # (11,10) in the first sample, (10,11) in the second
+                col = [ref_b] * (depth - c1 - c2) + [others[0]] * c1 + [others[1]] * c2
+                cols.append(col)
+                continue
             minor = draw(st.integers(0, max(1, depth // 4 if depth > 10 else depth)))
             minor2 = draw(st.integers(0, 2)) if depth - minor >= 2 else 0
             major = depth - minor - minor2
@@ -115,7 +128,7 @@ def table_case(draw):
             "bams": bams, "samples": ["S%d" % i for i in range(n_s)]}
     cfg = {"mapq": 20, "keep_dup": False, "keep_qcfail": False, "keep_supp": False, "rg_field": "SM"}
     return {"kind": "find_snvs", "spec": spec, "cfg": cfg,
-            "thr": {"ind_maf_pick": 0, "ind_maf_eps": 0, "ind_maf_grid": draw(st.sampled_from([0.05, 0.1, 0.2, 0.25, 0.34, 0.5])),
+            "thr": {"ind_maf_pick": 0, "ind_maf_eps": 0, "ind_maf_grid": draw(st.sampled_from([0.05, 0.1, 0.2, 0.25, 0.34, 0.5] if not near_tie else [0.05, 0.1, 0.2])),
                     "ind_mad": draw(st.integers(1, 6)), "min_ind": draw(st.integers(1, n_s)), "maf_pick": 0, "maf_on": False, "mad": 0,
                     "mad_realised": False, "mad_pick": 0}}
 
